@@ -96,7 +96,41 @@ def r1(ctx):
     calls = [q for c, q in repo.calls_in(f_ch)]
     okk = ARB + ".reap_workers" in calls and ARB + ".wakeup" in calls and calls.index(ARB + ".reap_workers") < calls.index(ARB + ".wakeup")
     ctx.check("C03.R1", okk, key(f_ch, "reap-then-wake"), site(f_ch), "handle_chld does not reap_workers() and then wakeup()", "reap then wakeup")
+    chld_always_reaps(ctx, "C03.R1")
+    manage_always_compares(ctx, "C03.R2")
     ctx.count("signals", len(sigs) + 1)
+
+
+def manage_always_compares(ctx, rid):
+    """manage_workers() looks at the pool every time it is called: no path to its exit avoids the comparison of len(WORKERS)
+    with num_workers (a 'nothing changed' shortcut driven by a flag races with the SIGCHLD handler, which changes the pool
+    while manage_workers is running)"""
+    repo = ctx.repo
+    f = ctx.fn(repo.func(ARB + ".manage_workers"))
+    g = f.cfg
+    cmps = [t for t in g.tests() if "num_workers" in norm(t.ast) and ("WORKERS" in norm(t.ast) or "len(" in norm(t.ast))]
+    deficit = [t for t in cmps if (lambda c: c and ((c[1] in (ast.Lt, ast.LtE) and "WORKERS" in norm(c[0])) or (c[1] in (ast.Gt, ast.GtE) and "WORKERS" in norm(c[2]))))(compare(t.ast))]
+    sp = [n for c in calls_to(repo, f, [ARB + ".spawn_workers", ARB + ".spawn_worker"]) for n in nodes_with(f, c)]
+    first = deficit or sp
+    ctx.need(first, rid + ": manage_workers has neither a deficit test nor a spawn call")
+    pth = g.must_pass(g.entry, first, follow_exc=False)
+    ctx.check(rid, pth is None, key(f, "always-compares"), site(f), "manage_workers() can return before it has compared the pool with num_workers: a worker reaped by the SIGCHLD handler while a "
+              "replacement was being spawned is never replaced (the pool stays short; with workers=1 the server stops serving)", "deficit test on every call", path=pth and g.fmt_path(pth))
+
+
+def chld_always_reaps(ctx, rid):
+    """every delivery of SIGCHLD reaps: handle_chld has no path to its exit that avoids reap_workers() -- a skipped delivery
+    (re-entrancy flag, "no workers left" shortcut) leaves a zombie nobody collects, its slot never refilled, and the re-exec
+    bookkeeping (reexec_pid) never reset, because nothing else calls waitpid"""
+    repo = ctx.repo
+    f_ch = ctx.fn(repo.func(ARB + ".handle_chld"))
+    g = f_ch.cfg
+    rp = [n for c in calls_to(repo, f_ch, ARB + ".reap_workers") for n in nodes_with(f_ch, c)]
+    p = g.must_pass(g.entry, rp, follow_exc=False) if rp else [g.entry]
+    ctx.check(rid, bool(rp) and p is None, key(f_ch, "always-reaps"), site(f_ch), "a SIGCHLD delivery can return from handle_chld without calling reap_workers()", "reap_workers() on every delivery",
+              path=(p and rp) and g.fmt_path(p) or None)
+    others = [ff.qualname for ff in repo.funcs() for c, q in repo.calls_in(ff) if q == "os.waitpid" and ff.qualname != ARB + ".reap_workers"]
+    ctx.check(rid, not others, "waitpid-sites", "gunicorn: os.waitpid", "os.waitpid is also called from %s" % others, "waitpid only in reap_workers")
 
 
 def r2(ctx):
@@ -275,6 +309,44 @@ def r4(ctx):
         p, hits = guard_check(f, nodes_with(f, c), recog)
         ctx.check("C03.R4", p is None and bool(hits), key(f, "boot-error-guard"), site(f, c), "WORKER_BOOT_ERROR is used although the worker may have booted (a crash of a running worker would halt the server)",
                   "only when not worker.booted", path=p and f.cfg.fmt_path(p))
+    # evaluated per exception class: whatever stops a worker before it has booted ends the child with WORKER_BOOT_ERROR
+    # (APP_LOAD_ERROR for AppImportError) -- the reaper halts the server on exactly these two; after boot, with neither
+    from .c05 import _landing
+    ipc = [c for c in walk_own(f.node) if isinstance(c, ast.Call) and isinstance(c.func, ast.Attribute) and c.func.attr == "init_process"]
+    ctx.need(ipc, "C03.R4: spawn_worker's child branch does not call worker.init_process()")
+    exits = [c for c in walk_own(f.node) if isinstance(c, ast.Call) and repo.call_target(f.module, f, c) in ("sys.exit", "os._exit")]
+    WK = norm(ipc[0].func.value)
+    vals_ = dict((nm, repo.fold(cls.module, cls.attrs[nm])) for nm in codes)
+    rows = []
+    for exc_q in ("OSError", "FileNotFoundError", "PermissionError", "ImportError", "ModuleNotFoundError", "RuntimeError", "ValueError", "KeyError", "AttributeError", "MemoryError", "Exception",
+                  "gunicorn.errors.AppImportError", "gunicorn.errors.ConfigError"):
+        for booted in (False, True):
+            h = _landing(repo, f, ipc[0], exc_q)
+            if h is None:
+                ctx.bad("C03.R4", key(f, "child-exit|%s|%s" % (exc_q, booted)), site(f, ipc[0]), "%s raised while the worker boots is not handled in the child branch of spawn_worker" % exc_q)
+                continue
+            hn = [n for n in f.cfg.nodes_of(h) if n.kind == "handler"][0]
+
+            def probe_of(c):
+                return lambda ex, env: (ex.ev(c.args[0], env) if c.args else 0)
+            probes = {nn.id: ("exit@%d" % i, probe_of(c)) for i, c in enumerate(exits) for nn in nodes_with(f, c)}
+            outs = Explorer(f).run(hn, {WK + ".booted": booted}, probes=probes)
+            got = set()
+            for o in outs:
+                ev_ = [v for k, v in o.events if isinstance(k, str) and k.startswith("exit@")]
+                got.add(ev_[0] if len(ev_) == 1 else ("no exit" if not ev_ else "several"))
+            if not booted:
+                want = {vals_["APP_LOAD_ERROR"]} if exc_q.endswith("AppImportError") else {vals_["WORKER_BOOT_ERROR"]}
+                okk = got == want
+            else:
+                want = "anything but %s" % sorted(vals_.values())
+                okk = bool(got) and not (got & set(vals_.values())) or exc_q.endswith("AppImportError")
+            rows.append({"exception": exc_q, "booted": booted, "child exit status": sorted(map(str, got)), "required": str(want)})
+            ctx.check("C03.R4", okk, key(f, "child-exit|%s|%s" % (exc_q, booted)), site(f, h),
+                      "%s raised %s ends the worker process with exit status %s, required %s: %s" % (
+                          exc_q, "after boot" if booted else "before the worker has booted", sorted(map(str, got)), want,
+                          "the master would halt on the crash of a running worker" if booted else "the master does not recognise the boot failure and respawns the worker forever"), "-> %s" % (want,))
+    ctx.table("C03.R4 child exit status", rows)
     # booted is set right before run()
     f_ip = ctx.fn(repo.func("gunicorn.workers.base.Worker.init_process"))
     bs = [n for n in f_ip.cfg.stmts(ast.Assign) if any(tail(t) == "booted" for t in n.ast.targets) and const(n.ast.value, NO) is True]
